@@ -8,6 +8,8 @@ out = "/tmp/seed-%s%s/out" % (pid, variant)
 hint = {
  "a": "Prefer a change that needs a particular multi-step sequence of operations or an unusual input/configuration to manifest.",
  "b": "Prefer a change that needs a particular interleaving, a fault/crash at a particular point, or two cooperating edits at different sites that each look harmless alone.",
+ "d": "Prefer a change whose effect appears only after a rarely exercised state transition: wrap-around, expiry, recovery after an error or outage, reconnect, restart, reuse of an object after a failure or after Close/Stop, or the second use of something cached, pooled or memoised. First use and fresh-object behaviour must stay identical to the original.",
+ "e": "Prefer a change on an error, fault or cancellation path, or at an extreme of a legal argument range: behaviour differs only when a dependency fails at a particular point, a context is cancelled, a callback panics or returns a particular kind of error, or an argument/configuration value is zero, negative, maximal, empty or nil.",
  "c": "Prefer a change in one of the *secondary* files listed below (a call site, wrapper, middleware, interceptor, adapter, helper or convenience entry point of the mechanism) rather than in its core data structure, and one that needs an unusual but legal input, configuration or sequence to manifest.",
 }[variant]
 extra = ""
